@@ -137,6 +137,21 @@ def entries():
                 if pid == "print-arg" and tname == "novalue":
                     accept = False
                 out.append((pid, tname, cname, tail, accept, finding))
+    # call arity, also for functions declared without a parameter list
+    np = "func np int {\n\treturn 1\n}\nfunc nv {\n\tprint(1)\n}\n"
+    for pid, stmt, accept in [
+        ("arity-too-many", "print(fint(1, 2))", False), ("arity-too-few", "print(fint())", False), ("arity-exact", "print(fint(1))", True),
+        ("arity-noparens-args", np + "print(np(1))", False), ("arity-noparens-two-args", np + "print(np(1, \"x\"))", False),
+        ("arity-noparens-none", np + "print(np())", True), ("arity-noparens-void-args", np + "nv(true)", False),
+        ("arity-noparens-void-none", np + "nv()", True), ("arity-noparens-void-call-arg", np + "nv(v())", False),
+        ("arity-builtin-len-two", "print(len(xs, xs))", False), ("arity-builtin-itoa-none", "print(itoa())", False),
+        ("arity-builtin-copy-one", "print(copy(li))", False), ("arity-builtin-write-one", "write(\"p\")", False),
+        ("arity-builtin-write-four", "write(\"p\", \"d\", true, true)", False), ("arity-builtin-input-two", "qq := input(\"a\", \"b\")\nprint(qq)", False),
+    ]:
+        for cname, ctx in CONTEXTS:
+            if stmt.startswith("func") and cname != "top":
+                continue
+            out.append((pid, "-", cname, ctx.format(S=stmt, SI=indent(stmt)), accept, None))
     for pid, tmpl, ok, finding in RETURN_POSITIONS:
         for tname, expr in OFFERED:
             tail = tmpl.format(E=expr) + "\n"
